@@ -570,6 +570,37 @@ def big_frame_modules(L, tab):
     return out
 
 
+def short_stack_call_modules(L, tab):
+    """every call instruction executed while the operand stack holds fewer values than the callee's arity; the callee then
+    reads and writes each of its local slots (all inside local_count, so the verifier accepts the module)"""
+    names = {nm: op for op, (nm, ops) in tab.items()}
+    E = lambda nm, *vals: nvm.encode_instr(names[nm], [v & ((1 << 64) - 1) for v in vals], tab)
+    out = []
+    for arity in (1, 2, 3, 8):
+        for extra in (0, 2):
+            nloc = arity + extra
+            for have in range(0, arity):
+                for how in ("CALL", "CALL_INDIRECT", "CLOSURE_CALL"):
+                    for touch, only in [(t, o) for t in ("load", "store") for o in [None] + list(range(nloc))]:
+                        m = nvm.Mod()
+                        m.strings = [b"main", b"callee"]
+                        helper = b""
+                        for i in (range(nloc) if only is None else [only]):      # every slot in turn, or one slot alone
+                            helper += (E("LOAD_LOCAL", i) + E("POP")) if touch == "load" else (E("PUSH_I64", 40 + i) + E("STORE_LOCAL", i))
+                        helper += E("PUSH_I64", 7) + E("RET")
+                        body = b"".join(E("PUSH_I64", 100 + j) for j in range(have))
+                        if how == "CALL":
+                            body += E("CALL", 1)
+                        else:
+                            body += E("CLOSURE_NEW", 1, 0) + E(how)
+                        body += E("PRINTLN") + E("PUSH_I64", 0) + E("RET")
+                        m.code = body + helper
+                        m.functions = [[0, 0, 0, len(body), 0, 0], [1, arity, len(body), len(helper), nloc, 0]]
+                        m.entry = 0
+                        out.append(("short-stack-%s-arity%d-have%d-locals%d-%s-%s" % (how, arity, have, nloc, touch, "all" if only is None else only), m.build(L)))
+    return out
+
+
 def deep_value_modules(L, tab):
     """a value nested N containers deep, built by a loop, then dropped / printed / compared at function exit: whatever walks the
     value must not need a C stack frame per level"""
